@@ -433,3 +433,6 @@ def replay(doc):
     finally:
         if _SCRATCH:
             shutil.rmtree(_SCRATCH, ignore_errors=True)
+
+
+RULE += ' Also (wave 9): shallow copies of the opened object with the original dropped and collected.'
